@@ -113,6 +113,33 @@ def range_rule(ctx, R2):
             R2.ok(inst, sample='%s: %d <= %s < %d -> %s' % (size_tok, lo_incl, var, hi_excl, u(ret[0].value)))
     if n_br < 7:
         raise AnalysisError('only %d interval branches found in check_imm_size' % n_br)
+    # ad_to_generic (the displacement forms forge_opc tries for a memory operand), evaluated on boundary displacements: the one-byte form is offered exactly for -128..127
+    from ..consteval import PyRaise as _PRa
+    from .. import simpeval as _SEa
+    a2g = arch.func('ad_to_generic')
+    scope_a = dict((k_, v_) for k_, v_ in E.items() if isinstance(v_, (str, int, bool, list, tuple, dict)) or v_ is None)
+    scope_a.update(_SEa.INT_CLASSES)
+    scope_a['x86_afs'] = afs
+    for fname_, fnode_ in arch.funcs.items():
+        scope_a.setdefault(fname_, fnode_)
+    for disp in (-129, -128, -127, -1, 0, 1, 127, 128, 255, 256, -0x80000000, 0x7FFFFFFF, 0xFFFFFF80, 0xFFFFFF7F):
+        sv = disp - (1 << 32) if disp >= (1 << 31) else disp
+        inst = 'ad_to_generic[disp %d]' % disp
+        try:
+            out_ = Evaluator(scope_a).call_user(a2g, [{afs.ad: afs.u32, afs.size: afs.u32, 5: 1, afs.imm: disp}])
+        except _PRa as e:
+            R2.violation(inst, 'disp-forms:raises:%s' % e.exc_name, 'ad_to_generic raises %s on the displacement %d' % (e.exc_name, disp), where(arch, a2g))
+            continue
+        except NotConst as e:
+            raise AnalysisError('ad_to_generic is outside the evaluable subset: %s' % e)
+        kinds = [o_.get(afs.imm) for o_ in out_ if isinstance(o_, dict)]
+        has8, has32 = afs.s08 in kinds, afs.u32 in kinds
+        if has8 == (-128 <= sv <= 127) and has32:
+            R2.ok(inst, sample='displacement %d: %s' % (disp, 'disp8 and disp32 forms' if has8 else 'disp32 form only'))
+        else:
+            R2.violation(inst, 'disp-forms:%s' % ('disp8-missing' if (-128 <= sv <= 127) and not has8 else 'disp8-offered' if has8 else 'disp32-missing'),
+                         'for the displacement %d ad_to_generic offers the forms %s; the signed-byte form exists exactly for -128..127 and the 32-bit form always' % (disp, kinds), where(arch, a2g),
+                         witness='8b 45 80 (mov eax, [ebp-128]) is not among the candidates of its own rendering')
     # the size-membership guard
     ds = afs.dict_size
     for tok, (bits, signed) in WIDTH_OF_TOKEN.items():
